@@ -192,8 +192,24 @@ int main(int argc, char **argv) {
             } else {
                 t = unhex(vh_args(2), &n);
             }
-            struct aws_byte_cursor c = aws_byte_cursor_from_array(t, n);
-            int rc = aws_date_time_init_from_str_cursor(&dt, &c, f);
+            /* both entry points: the cursor form, and the byte-buffer form with the text at the start of a buffer that has
+             * spare room behind it (an exact-size heap block of capacity n + extra) */
+            static unsigned parse_calls;
+            static const size_t extras[] = {0, 1, 40, 72, 101, 200};
+            int rc;
+            if (++parse_calls % 3 == 0) {
+                size_t cap = n + extras[(parse_calls / 3) % 6];
+                uint8_t *b = malloc(cap ? cap : 1);
+                memcpy(b, t, n);
+                memset(b + n, 0xEE, cap - n);
+                struct aws_byte_buf bb = aws_byte_buf_from_array(b, n);
+                bb.capacity = cap;
+                rc = aws_date_time_init_from_str(&dt, &bb, f);
+                free(b);
+            } else {
+                struct aws_byte_cursor c = aws_byte_cursor_from_array(t, n);
+                rc = aws_date_time_init_from_str_cursor(&dt, &c, f);
+            }
             have = rc == 0;
             vh_begin(last ? "ParseLast" : "ParseText");
             vh_str("fmt", vh_args(1));
